@@ -240,16 +240,27 @@ pub fn run(thorough: bool) -> i32 {
                     continue;
                 }
                 for l in 1..=(if thorough { 9 } else { 5 }) * b as usize * e as usize + 1 {
-                    acases.push((scheme, sess_kind, b, e, l));
+                    acases.push((scheme, sess_kind, b, e, l, 0u8));
+                }
+            }
+        }
+    }
+    // content-encoded objects: the transfer length (not the content length) is what is partitioned and
+    // signalled; compressible text of 1..600 bytes, so that the two lengths give different partitions
+    for scheme in [Scheme::NoCode, Scheme::RaptorQ, Scheme::Raptor, Scheme::Rs28] {
+        for cenc in 1..=3u8 {
+            for (b, e) in [(4u16, 8u16), (5, 4), (16, 4)] {
+                for l in (1..=600usize).step_by(if thorough { 7 } else { 37 }) {
+                    acases.push((scheme, (l % 3) as u8, b, e, l, cenc));
                 }
             }
         }
     }
     let na = acases.len() as u64;
-    let ares = par_map(&acases, |_, (sc, sk, b, e, l)| sender_receiver_agree(*sc, *sk, *b, *e, *l));
-    for ((sc, sk, b, e, l), r) in acases.iter().zip(ares) {
+    let ares = par_map(&acases, |_, (sc, sk, b, e, l, ce)| sender_receiver_agree(*sc, *sk, *b, *e, *l, *ce));
+    for ((sc, sk, b, e, l, ce), r) in acases.iter().zip(ares) {
         if let Some((k, w)) = r {
-            rep.add(Violation { key: k, what: w, case: json!({"check": "agree", "case": {"scheme": sc, "sess_kind": sk, "b": b, "e": e, "l": l}}) });
+            rep.add(Violation { key: k, what: w, case: json!({"check": "agree", "case": {"scheme": sc, "sess_kind": sk, "b": b, "e": e, "l": l, "cenc": ce}}) });
         }
     }
     rep.cov("sender_receiver_agreement_sessions", na);
@@ -413,9 +424,12 @@ fn sender_structure(b: u16, e: u16, l: usize) -> Option<(String, String)> {
 /// another one. The block structure on the wire must be the reference partition of the object's
 /// (B, E, L), and the partition the receiver derives from the in-band EXT_FTI of the object's packets
 /// (parsed by flute's own parser) must be the same.
-fn sender_receiver_agree(scheme: Scheme, sess_kind: u8, b: u16, e: u16, l: usize) -> Option<(String, String)> {
+fn sender_receiver_agree(scheme: Scheme, sess_kind: u8, b: u16, e: u16, l: usize, cenc: u8) -> Option<(String, String)> {
     let mut o = ObjSpec::simple(l, 4);
-    o.oti = Some(OtiSpec::new(scheme, e, b, 1, true));
+    o.oti = Some(OtiSpec::new(scheme, e, b, if scheme == Scheme::NoCode { 0 } else { 1 }, true));
+    o.cenc = cenc;
+    o.text = cenc != 0;
+    o.inband_cenc = true;
     let default = match sess_kind {
         0 => OtiSpec::new(Scheme::NoCode, 1424, 64, 0, true),
         1 => OtiSpec::new(scheme, e, b * 3 + 1, 1, true),
@@ -430,6 +444,10 @@ fn sender_receiver_agree(scheme: Scheme, sess_kind: u8, b: u16, e: u16, l: usize
     if l == 0 {
         return None;
     }
+    // the object on the wire is the transfer-encoded one: its length is what both ends partition
+    let content_len = l;
+    let l = rec.objs[0].2 as usize;
+    let _ = content_len;
     let refp = rfc::partition(b as u128, l as u128, e as u128).unwrap();
     let toi = rec.objs[0].0;
     let mut per: std::collections::BTreeMap<u32, std::collections::BTreeSet<u32>> = Default::default();
@@ -482,7 +500,7 @@ pub fn replay(v: &serde_json::Value) -> Vec<Violation> {
     if v["check"] == "agree" {
         let c = &v["case"];
         let scheme: Scheme = serde_json::from_value(c["scheme"].clone()).expect("scheme");
-        return sender_receiver_agree(scheme, c["sess_kind"].as_u64().unwrap() as u8, c["b"].as_u64().unwrap() as u16, c["e"].as_u64().unwrap() as u16, c["l"].as_u64().unwrap() as usize).into_iter().map(|(key, what)| Violation { key, what, case: v.clone() }).collect();
+        return sender_receiver_agree(scheme, c["sess_kind"].as_u64().unwrap() as u8, c["b"].as_u64().unwrap() as u16, c["e"].as_u64().unwrap() as u16, c["l"].as_u64().unwrap() as usize, c["cenc"].as_u64().unwrap_or(0) as u8).into_iter().map(|(key, what)| Violation { key, what, case: v.clone() }).collect();
     }
     let c = &v["case"];
     let (b, e, l) = (c["b"].as_u64().unwrap(), c["e"].as_u64().unwrap(), c["l"].as_u64().unwrap());
